@@ -52,11 +52,18 @@ structure Ext where
   payload : Option (List (Bytes × Bytes))
   deriving Repr
 
+/-- Tracing id: `read_uuid(&mut &*body)` on a copy of the slice, then `body.advance(16)`. -/
+def readTrace : M Bytes := do
+  let r ← onCopy (tag "ext.trace" readUuid)
+  advance 16
+  pure r.1
+
 /-- `parse_response_body_extensions` after the (optional) decompression: tracing id, warnings, custom payload. -/
 def parseExt (flags : Nat) : M Ext := do
-  let trace ← optRead (hasFlag flags FLAG_TRACING) (tag "ext.trace" readUuid)
-  let warnings ← condRead (hasFlag flags FLAG_WARNING) (tag "ext.warnings" readStringList) []
-  let payload ← optRead (hasFlag flags FLAG_CUSTOM_PAYLOAD) (tag "ext.payload" readBytesMap)
+  -- trace id: `read_uuid(&mut &*body)` on a copy, then `body.advance(16)` (frame/mod.rs:231-237)
+  let trace ← optRead (hasFlag flags FLAG_TRACING) readTrace
+  let warnings ← condRead (hasFlag flags FLAG_WARNING) (readThenAdvance (tag "ext.warnings" readStringList)) []
+  let payload ← optRead (hasFlag flags FLAG_CUSTOM_PAYLOAD) (readThenAdvance (tag "ext.payload" readBytesMap))
   pure ⟨trace, warnings, payload⟩
 
 /-- Second stage of a Rows result: `deserialize_metadata`, then the raw rows. -/
@@ -72,6 +79,7 @@ def ZERO_COL_ROW_CAP : Nat := 1000
 def rowsStage (r : RawRows) (cached : Option ResultMeta) (s : St) : RowsStage × St :=
   match deserMetadata r cached s with
   | (.err k, s') => (⟨.err k, [], none⟩, s')
+  | (.panic k, s') => (⟨.panic k, [], none⟩, s')
   | (.ok d, s') =>
     let ncols := d.rmeta.cols.length
     let n := if ncols = 0 then min d.rowsCount ZERO_COL_ROW_CAP else d.rowsCount
@@ -89,9 +97,11 @@ structure Decoded where
 def decodeBody (f : Features) (cached : Option ResultMeta) (h : Header) (body : Bytes) : Outcome Decoded × St :=
   match parseExt h.flags { buf := body } with
   | (.err k, s) => (.err k, s)
+  | (.panic k, s) => (.panic k, s)
   | (.ok ext, s) =>
     match deserResponse f h.opcode s with
     | (.err k, s') => (.err k, s')
+    | (.panic k, s') => (.panic k, s')
     | (.ok resp, s') =>
       match resp with
       | .result (.rows r) =>
